@@ -136,52 +136,86 @@ func prepare(repo, verif string) (*load.Program, error) {
 				}
 			}
 		}
-		for round := 0; round < 4; round++ {
-			kit.Canonical = map[string]string{}
-			rn := prog.DetectRenames(table, kit.RawFuncID, kit.CallID)
-			isNew := func(fn *types.Func) bool {
-				if fn.Pkg() == nil || !strings.HasPrefix(fn.Pkg().Path(), load.RootPkg) {
-					return false
+		reinlineRounds := func() {
+			for round := 0; round < 4; round++ {
+				kit.Canonical = map[string]string{}
+				rn := prog.DetectRenames(table, kit.RawFuncID, kit.CallID)
+				isNew := func(fn *types.Func) bool {
+					if fn.Pkg() == nil || !strings.HasPrefix(fn.Pkg().Path(), load.RootPkg) {
+						return false
+					}
+					id := kit.RawMethodID(fn)
+					if inTable[id] {
+						return false
+					}
+					if _, renamed := rn.FuncToCanonical[id]; renamed {
+						return false
+					}
+					return true
 				}
-				id := kit.RawMethodID(fn)
-				if inTable[id] {
-					return false
+				more, ns := load.Reinline(prog.Pkgs, isNew, read)
+				if len(more) == 0 {
+					notes = append(notes, ns...)
+					break
 				}
-				if _, renamed := rn.FuncToCanonical[id]; renamed {
-					return false
+				for k, v := range more {
+					overlay[k] = v
 				}
-				return true
-			}
-			more, ns := load.Reinline(prog.Pkgs, isNew, read)
-			if len(more) == 0 {
+				next, lerr := load.LoadOverlay(repo, overlay)
+				if lerr != nil {
+					notes = append(notes, fmt.Sprintf("expansion of new helpers abandoned in round %d (the expanded source does not type-check: %v); the tree is analysed as written", round+1, lerr))
+					if os.Getenv("VCHECK_DEBUG_REINLINE") != "" {
+						for k, v := range overlay {
+							os.WriteFile("/tmp/reinline_"+filepath.Base(k), v, 0o644)
+						}
+					}
+					if round > 0 {
+						// keep the last good expansion
+						break
+					}
+					break
+				}
+				if d := os.Getenv("VCHECK_DUMP_OVERLAY"); d != "" {
+					for k, v := range overlay {
+						os.WriteFile(filepath.Join(d, filepath.Base(k)), v, 0o644)
+					}
+				}
 				notes = append(notes, ns...)
+				next.RawID = kit.RawFuncID
+				prog = next
+			}
+		}
+		reinlineRounds()
+		// calls through a local function variable that is bound once (a method value handed to an
+		// expanded helper) are read as calls of the function it is bound to
+		for flRound := 0; flRound < 2; flRound++ {
+			fl, ns := load.ResolveFuncLocals(prog.Pkgs, read)
+			if len(fl) == 0 {
 				break
 			}
-			for k, v := range more {
+			saved := map[string][]byte{}
+			for k, v := range fl {
+				if old, ok := overlay[k]; ok {
+					saved[k] = old
+				}
 				overlay[k] = v
 			}
 			next, lerr := load.LoadOverlay(repo, overlay)
 			if lerr != nil {
-				notes = append(notes, fmt.Sprintf("expansion of new helpers abandoned in round %d (the expanded source does not type-check: %v); the tree is analysed as written", round+1, lerr))
-				if os.Getenv("VCHECK_DEBUG_REINLINE") != "" {
-					for k, v := range overlay {
-						os.WriteFile("/tmp/reinline_"+filepath.Base(k), v, 0o644)
+				notes = append(notes, fmt.Sprintf("resolution of function-valued locals abandoned (%v)", lerr))
+				for k := range fl {
+					if old, ok := saved[k]; ok {
+						overlay[k] = old
+					} else {
+						delete(overlay, k)
 					}
-				}
-				if round > 0 {
-					// keep the last good expansion
-					break
 				}
 				break
 			}
-			if d := os.Getenv("VCHECK_DUMP_OVERLAY"); d != "" {
-				for k, v := range overlay {
-					os.WriteFile(filepath.Join(d, filepath.Base(k)), v, 0o644)
-				}
-			}
-			notes = append(notes, ns...)
 			next.RawID = kit.RawFuncID
 			prog = next
+			notes = append(notes, ns...)
+			reinlineRounds()
 		}
 		// scalar replacement of local aggregates of struct types the reference tree does not have
 		{
